@@ -30,7 +30,7 @@ class Plan:
 
     def __init__(self, prop, rule, assumptions, workers, deciding=(), level="exploration",
                  min_nontrivial=2, native=None, crash_is_violation=False, exhaustive=False,
-                 timeout=None, post=None):
+                 timeout=None, post=None, only_kinds=None):
         self.prop, self.rule, self.assumptions = prop, rule, assumptions
         self.workers = workers          # list of (variant, nshards) per tier: dict tier -> list
         self.deciding = deciding        # counters that must be > 0 else inconclusive
@@ -41,6 +41,7 @@ class Plan:
         self.exhaustive = exhaustive
         self.timeout = timeout or {"quick": 900, "thorough": 7200}
         self.post = post
+        self.only_kinds = only_kinds    # keep only violations whose kind starts with one of these
 
 
 def _worker_env(tree, variant, logdir):
@@ -233,6 +234,10 @@ def finish(plan, tier, seed, t0, results, extra_cov=None, extra_viol=None, incon
     for c in plan.deciding:
         if counters.get(c, 0) == 0:
             inconc.append("deciding monitor %r was never evaluated" % c)
+    if plan.only_kinds:
+        kept = [w for w in viols if any(str(w.get("kind", "")).startswith(k) for k in plan.only_kinds)]
+        counters["violations_of_other_properties_ignored"] = len(viols) - len(kept)
+        viols = kept
     # classify
     new, hits = [], {}
     for w in viols:
